@@ -1844,3 +1844,182 @@ example : (wrun (demoLife.take 13)).q.queue.map (fun it => (it.id, it.evidence))
     (wrun (demoLife.take 13)).q.queue.map (·.elected) = [21000, 0] := by decide
 
 end Paloma.C13
+
+/-! ## Part C: what the chain PUBLISHES for signing, across deployments (compass upgrades)
+
+`Dep` (Model/Bridge.lean) puts the remote deployment's id into the signing bytes.  Histories `OpD`: every part-A
+operation (`Op13`: bridge ops, id-blind evidence, key registration, external jailing), a compass upgrade to any id at
+any moment, a batch confirmation, and evidence as the handler really evaluates it (`evidenceD`: the digest is re-derived
+from the submitted batch with the id in force NOW).  What the chain publishes for signing is `Dep.published`: the STORED
+bytes of the open batches (what `LastPendingBatchRequestByAddr`, `BatchRequestByNonce`, … hand out). -/
+namespace Paloma.Bridge
+open List
+
+inductive OpD where
+  | base (o : Op13)
+  | upgrade (d : Nat)
+  | evidence (c : Ckpt) (signed : DCkpt) (key : Nat)
+  | confirm (v tok nonce : Nat)
+
+structure DW where
+  br : St
+  dep : Dep
+
+def applyD (w : DW) : OpD → DW
+  | .base o => ⟨apply13 w.br o, w.dep.sync (apply13 w.br o).batches⟩
+  | .upgrade d => ⟨w.br, { w.dep with cur := d }⟩
+  | .evidence c signed key => ⟨(evidenceD w.br w.dep c signed key).1, w.dep⟩
+  | .confirm v tok nonce => ⟨w.br, (w.dep.confirm w.br.batches v tok nonce).1⟩
+
+def runD (ops : List OpD) : DW := ops.foldl applyD ⟨St.init, {}⟩
+
+/-- every stored (= published) digest is archived -/
+def StoredArch (d : Dep) : Prop := ∀ p ∈ d.stored, (p.2, p.1.ckpt) ∈ d.arch
+
+/-- helper: a tag found for a batch belongs to a stored entry of that batch -/
+theorem tagOf_some_mem {d : Dep} {b : Batch} {t : Nat} (h : d.tagOf b = some t) : (b, t) ∈ d.stored := by
+  unfold Dep.tagOf at h
+  cases hf : d.stored.find? (fun p => p.1 == b) with
+  | none => simp [hf] at h
+  | some p =>
+    simp [hf] at h
+    have hm := List.mem_of_find?_eq_some hf
+    have hp := List.find?_some hf
+    have : p.1 = b := by simpa using hp
+    have hp' : p = (b, t) := by cases p; simp_all
+    rw [← hp']; exact hm
+
+/-- helper: `Dep.sync` keeps "stored ⊆ archive" -/
+theorem sync_storedArch (d : Dep) (bs : List Batch) (h : StoredArch d) : StoredArch (d.sync bs) := by
+  intro p hp
+  simp only [Dep.sync, List.mem_map] at hp
+  obtain ⟨b, hb, rfl⟩ := hp
+  simp only [Dep.sync, List.mem_append, List.mem_map, List.mem_filter]
+  cases ht : d.tagOf b with
+  | none => left; exact ⟨b, ⟨hb, by simp [ht]⟩, by simp⟩
+  | some t => right; simpa using h (b, t) (tagOf_some_mem ht)
+
+/-- helper: `Dep.sync` only adds to the archive -/
+theorem sync_arch_sub (d : Dep) (bs : List Batch) (c : DCkpt) (h : c ∈ d.arch) : c ∈ (d.sync bs).arch := by
+  simp only [Dep.sync, List.mem_append]; right; exact h
+
+/-- helper: a confirmation touches neither the stored bytes nor the archive -/
+theorem confirm_frame (d : Dep) (bs : List Batch) (v tok nonce : Nat) :
+    (d.confirm bs v tok nonce).1.stored = d.stored ∧ (d.confirm bs v tok nonce).1.arch = d.arch := by
+  unfold Dep.confirm
+  split
+  · exact ⟨rfl, rfl⟩
+  · split
+    · exact ⟨rfl, rfl⟩
+    · split <;> exact ⟨rfl, rfl⟩
+
+/-- helper: one step keeps "stored ⊆ archive" -/
+theorem applyD_storedArch (w : DW) (op : OpD) (h : StoredArch w.dep) : StoredArch (applyD w op).dep := by
+  cases op with
+  | base o => exact sync_storedArch _ _ h
+  | upgrade d => exact h
+  | evidence c s k => exact h
+  | confirm v t n =>
+    intro p hp
+    have hf := confirm_frame w.dep w.br.batches v t n
+    simp only [applyD] at hp ⊢
+    rw [hf.1] at hp; rw [hf.2]; exact h p hp
+
+/-- helper: one step only adds to the archive -/
+theorem applyD_arch_sub (w : DW) (op : OpD) (c : DCkpt) (h : c ∈ w.dep.arch) : c ∈ (applyD w op).dep.arch := by
+  cases op with
+  | base o => exact sync_arch_sub _ _ c h
+  | upgrade d => exact h
+  | evidence c s k => exact h
+  | confirm v t n =>
+    have hf := confirm_frame w.dep w.br.batches v t n
+    simp only [applyD]; rw [hf.2]; exact h
+
+theorem foldlD_storedArch (ops : List OpD) : ∀ w, StoredArch w.dep → StoredArch (ops.foldl applyD w).dep := by
+  induction ops with
+  | nil => intro w h; exact h
+  | cons op rest ih => intro w h; exact ih _ (applyD_storedArch w op h)
+
+theorem foldlD_arch_sub (ops : List OpD) (c : DCkpt) : ∀ w, c ∈ w.dep.arch → c ∈ (ops.foldl applyD w).dep.arch := by
+  induction ops with
+  | nil => intro w h; exact h
+  | cons op rest ih => intro w h; exact ih _ (applyD_arch_sub w op c h)
+
+theorem runD_append (a b : List OpD) : runD (a ++ b) = b.foldl applyD (runD a) := by
+  simp [runD, List.foldl_append]
+
+/-- **published_bytes_archived.** In every state reachable by bridge operations, evidence, key changes, jailings,
+confirmations and compass upgrades in any order, every digest the chain publishes for signing (the stored bytes of an
+open batch, with the deployment id they were computed with — not necessarily the current one) is in the archive of
+issued checkpoints. -/
+theorem published_bytes_archived (ops : List OpD) : ∀ c ∈ (runD ops).dep.published, c ∈ (runD ops).dep.arch := by
+  intro c hc
+  have h := foldlD_storedArch ops ⟨St.init, {}⟩ (by intro p hp; simp at hp)
+  simp only [Dep.published, List.mem_map] at hc
+  obtain ⟨p, hp, rfl⟩ := hc
+  exact h p hp
+
+/-- **published_archived_forever.** A digest that was published at some moment stays archived whatever happens later —
+upgrades of the deployment, re-estimation, execution or cancellation of the batch included. -/
+theorem published_archived_forever (before after : List OpD) (c : DCkpt) (hc : c ∈ (runD before).dep.published) :
+    c ∈ (runD (before ++ after)).dep.arch := by
+  rw [runD_append]
+  exact foldlD_arch_sub after c _ (published_bytes_archived before c hc)
+
+/-- **published_signature_never_jails.** The property's clause: take any digest `pub` the chain published for signing
+at some moment, a signature over it by ANY key, and any batch `c` submitted with it as bad-signature evidence at any
+later time (after any number of compass upgrades): the evidence is refused and nobody is jailed.  Either the handler's
+re-derived digest `(cur, c)` is not what was signed (the signature recovers to nobody), or it is — and then it is
+archived. -/
+theorem published_signature_never_jails (before after : List OpD) (pub : DCkpt)
+    (hp : pub ∈ (runD before).dep.published) (c : Ckpt) (key : Nat) :
+    evidenceD (runD (before ++ after)).br (runD (before ++ after)).dep c pub key
+      = ((runD (before ++ after)).br, .rejected) := by
+  have ha := published_archived_forever before after pub hp
+  unfold evidenceD
+  by_cases h1 : (runD (before ++ after)).dep.arch.contains ((runD (before ++ after)).dep.cur, c) = true
+  · rw [if_pos h1]
+  · rw [if_neg h1]
+    by_cases h2 : pub = ((runD (before ++ after)).dep.cur, c)
+    · rw [h2] at ha
+      exact absurd (List.contains_iff_mem.mpr ha) h1
+    · rw [if_pos (by simpa using h2)]
+
+/-- **published_are_the_open_batches.** What is published is exactly one digest per open batch of the bridge state. -/
+theorem published_are_the_open_batches (ops : List OpD) (op : Op13) :
+    (runD (ops ++ [.base op])).dep.stored.map (·.1) = (runD (ops ++ [.base op])).br.batches := by
+  rw [runD_append]
+  simp [applyD, Dep.sync, List.map_map, Function.comp_def]
+
+/-- **pending_request_hands_out_stored_bytes.** `LastPendingBatchRequestByAddr` hands out an open batch with its stored
+digest (never one re-derived with the current id). -/
+theorem pending_request_hands_out_stored_bytes (d : Dep) (bs : List Batch) (v : Nat) (p : Batch × Nat)
+    (h : d.pendingFor bs v = some p) (hs : (d.tagOf p.1).isSome) : p ∈ d.stored := by
+  unfold Dep.pendingFor at h
+  split at h
+  · simp at h
+  · rename_i b _
+    simp at h
+    subst h
+    cases ht : d.tagOf b with
+    | none => simp [ht] at hs
+    | some t => simpa [ht] using tagOf_some_mem ht
+
+/-- a batch of token 1 exists with one transfer -/
+def demoD : List OpD :=
+  [ .base (.register 1 11), .base (.bridge (.fund 1 1 100)), .base (.bridge (.send Fault.none 1 1 10 1000)),
+    .base (.bridge (.build Fault.none 1 5000)), .upgrade 2 ]
+
+-- non-vacuity: after the upgrade the chain still publishes the digest over deployment 1, archived; the digest a
+-- validator would get by re-deriving with the current id (2) was never published, is not archived, and a signature
+-- over it jails its signer - so handing out re-derived bytes would break the property, handing out stored bytes does not
+example : (runD demoD).dep.published = [(1, (1, 1, 0, 0))] ∧ (runD demoD).dep.cur = 2 ∧
+    (runD demoD).dep.arch = [(1, (1, 1, 0, 0))] ∧
+    (evidenceD (runD demoD).br (runD demoD).dep (1, 1, 0, 0) (1, (1, 1, 0, 0)) 11).2 = .rejected ∧
+    (evidenceD (runD demoD).br (runD demoD).dep (1, 1, 0, 0) (1, (1, 1, 0, 0)) 11).1.jailed = [] ∧
+    (evidenceD (runD demoD).br (runD demoD).dep (1, 1, 0, 0) (2, (1, 1, 0, 0)) 11).1.jailed = [1] ∧
+    ((Dep.pendingFor (runD demoD).dep (runD demoD).br.batches 1).map (fun p => (p.1.ckpt, p.2))) = some ((1, 1, 0, 0), 1) ∧
+    ((runD demoD).dep.confirm (runD demoD).br.batches 1 1 1).2 = .rejected ∧
+    ((runD (demoD.take 4)).dep.confirm (runD (demoD.take 4)).br.batches 1 1 1).2 = .ok := by decide
+
+end Paloma.Bridge
